@@ -6,6 +6,7 @@ from ..env import gfapy, GfapyError
 from ..runner import Part, Violation
 
 ID = "C16"
+ATHERIS = ['graphs', 'small-components']  # parts also driven by libFuzzer in the thorough tier (vf/runner.py: all_parts)
 RULE = ("part 'graphs': generated GFA1/GFA2 documents (isolated segments, trees, cycles, self-links, hairpins, "
         "parallel edges, containment-only and internal-only relations); part 'histories': the same after a "
         "model-based mutation history (checked after every step). Oracle: union-find over the model's dovetails "
